@@ -379,8 +379,8 @@ var _ = late(func() {
 					continue
 				}
 				for _, e := range phi.Edges {
-					if _, isK := e.(*ssa.Const); isK {
-						continue // the initial offset
+					if _, isK := argOf(e, di.calls).(*ssa.Const); isK {
+						continue // the initial offset (possibly the constant a caller passes for the helper's parameter)
 					}
 					n++
 					bin, ok := e.(*ssa.BinOp)
